@@ -483,6 +483,8 @@ start:
 						op = token.NEQ
 					case token.NEQ:
 						op = token.EQL
+					case token.LSS, token.LEQ, token.GTR, token.GEQ:
+						// see below
 					default:
 						panic(fmt.Sprintf("internal error: unhandled token %v", op))
 					}
@@ -492,6 +494,12 @@ start:
 					s.set(target, ValueNilness{AlwaysNil, AlwaysNil})
 				case token.NEQ:
 					s.setOuter(target, NeverNil)
+				case token.LSS, token.LEQ, token.GTR, token.GEQ:
+					// An ordered comparison with the zero value of a type
+					// parameter whose type set has no common constant
+					// representation, e.g. ~int | ~string. Such a zero
+					// value is a constant with a nil Value, but the
+					// comparison tells us nothing about nilness.
 				default:
 					panic(fmt.Sprintf("internal error: unhandled token %v", op))
 				}
